@@ -77,6 +77,8 @@ impl crate::graph::GraphRunner for MTGraph {
                     let idle_sleep = std::time::Duration::from_millis(1);
                     let mut stats = BlockStats::default();
                     while !cancel_token.is_canceled() {
+                        #[cfg(feature = "verif-hooks")]
+                        crate::verif::point(crate::verif::pt::MT_LOOP_HEAD, 0, 0);
                         let st = Instant::now();
                         stats.work_calls += 1;
                         let ret = match b.work() {
@@ -111,6 +113,8 @@ impl crate::graph::GraphRunner for MTGraph {
                             }
                         }
                     }
+                    #[cfg(feature = "verif-hooks")]
+                    crate::verif::point(crate::verif::pt::MT_THREAD_EXIT, 0, 0);
                     info!("Block {} done", b.block_name());
                     Ok(stats)
                 });
